@@ -116,7 +116,10 @@ def run(tier, replay=None):
     pro = observe(binary, C.fresh_dir(work / "prologue"), "\n".join(tot[0]["prologue"]) + "\nprint 1\n")
     if pro["cls"] != "ok" or pro["exit"] != 0:
         raise C.ToolError(f"GenTotal prologue does not compile: {pro}")
+    # (non-ASCII characters are written as ~X~ tokens in the specification and substituted here)
+    sub = lambda s: s.replace("~E~", "\u00e9").replace("~J~", "\u65e5").replace("~M~", "\U0001F600")
     for c in tot:
+        c["lines"] = [sub(l) for l in c["lines"]]
         cases.append(dict(kind="form:" + c["kind"], src=c["id"], toks=[], text="\n".join(c["lines"]) + "\n", lib=bool(c["lib"])))
     # plus the untouched corpus and its token-joined form
     for s in srcs:
